@@ -51,11 +51,15 @@
       with `.` / `)` followed by white space or the end): digits, hyphens, `*`, `+` are allowed; the list parsers are
       tried and decline in both runs.
 
-  What is NOT proved (`QuotePrefixSimulationAll` below is the full statement): documents with list items
-  (listParser.Close reads the blank-line flags; the relation does not cover them, and list item Continue needs the
-  invariant "the parent list just answered Continue"); a last line without `\n` that ends with a space (there
-  `fencedCodeBlockParser.Continue` calls `Advance(-1)` on a rest of line of spaces); the inline phase and the renderer
-  (C08 on HTML is SEARCHED by component `quote`).
+    * `quote_prefix_simulation_lists` — documents WITH LISTS and without a blank line (`C08ClassF`), all ten parsers;
+    * `quote_prefix_simulation_lists_blank` — documents with lists AND blank lines in which no position starts a setext
+      heading underline (`C08ClassG`, `NoBar`); `quote_prefix_simulation_union` collects the three classes.
+
+  What is NOT proved (`QuotePrefixSimulationAll` below is the full statement): documents that have a setext underline
+  pattern AND a blank line AND a list item position (`setextHeadingParser.Close` copies a `HasBlankPreviousLines` flag
+  that may differ between the two runs; needs "the heading is the temporary paragraph's next sibling"); a last line
+  without `\n` that ends with a space (there `fencedCodeBlockParser.Continue` calls `Advance(-1)` on a rest of line of
+  spaces); the inline phase and the renderer (C08 on HTML is SEARCHED by component `quote`).
   Helper lemmas: GM/Proof/LineRec.lean, GM/Proof/QuoteSim*.lean (unary facts about the original run:
   QuoteSimInv.lean, QuoteSimInvP.lean, QuoteSimInvK.lean, QuoteSimOpens.lean), GM/Proof/BlocksOrd*.lean (wf0).
 -/
@@ -278,9 +282,9 @@ theorem quote_step_close (src : Bytes) :
     differs by a constant of the line — give the same result and end in related states. -/
 theorem quote_driver_open_blocks {src : Bytes} {al : BP → Bool} (ps : PS src al) (fr : Frames al) (ot : OT src) (ns : NS src)
     (tr : TrigOK src al) (bA bB : Bool) (hb : FL src → bB = bA) (q : Nat) {k ls p : Nat} {sA sB : St}
-    (h : DRL src al k ls p sA sB) :
+    (h : DRL src al k ls p sA sB) (hq : q < sA.nodes.length) (hbq : al .setext = false → (bB = bA ∨ q = 0)) :
     S2 (fun a b sA' sB' => b = a ∧ ∃ p', DR src al k ls p' sA' sB') (openBlocks q bA sA) (openBlocks (q + 1) bB sB) :=
-  S2.mono (openBlocks_sim ps fr ot ns tr bA bB hb q h) (fun _ _ _ _ hh => ⟨hh.1, hh.2.1⟩)
+  S2.mono (openBlocks_sim ps fr ot ns tr bA bB hb q h hq hbq) (fun _ _ _ _ hh => ⟨hh.1, hh.2.1⟩)
 
 /-- **The driver, one line.** The loop of parseBlocks over the opened blocks (parser.go:1081-1123) — A at levels
     `i, i+1, …`, B one level deeper, B's `openedBlocks` being A's with the Blockquote in front — ends both in
@@ -289,10 +293,10 @@ theorem quote_driver_line {src : Bytes} {al : BP → Bool} (ps : PS src al) (fr 
     (tr : TrigOK src al) (ob : List Block) (L : Int) (rest : List Block) (hsub : ∀ b ∈ rest, b ∈ ob) (i : Int)
     (hi : 0 ≤ i) (stA stB : List LineStat) {k ls p : Nat} {sA sB : St} (h : DR src al k ls p sA sB)
     (hop : sA.pc.opened = ob) (hL : L = (ob.length : Int) - 1) (hcur : FL src → CUR (k : Int) i stA stB)
-    (hi0 : i = 0 → p = ls) (pre : List Block) (hm : Sh.MidA src ob pre rest i sA) :
+    (hi0 : i = 0 → p = ls) (pre : List Block) (hm : Sh.MidA src ob pre rest i sA) (hcg : CURG (k : Int) i stA stB) :
     S2 (LLRel src al k ls (loOf i rest)) (lineLoop 0 ob L rest i stA sA)
       (lineLoop 0 (bqBlock :: ob.map shB) (L + 1) (rest.map shB) (i + 1) stB sB) :=
-  lineLoop_sim ps fr ot ns tr ob L rest hsub i hi stA stB h hop hL hcur hi0 pre hm
+  lineLoop_sim ps fr ot ns tr ob L rest hsub i hi stA stB h hop hL hcur hi0 pre hm hcg
 
 /-- **The driver, `closeBlocks`.** `closeBlocks(from, to)` in A and `closeBlocks(from+1, to+1)` in B. -/
 theorem quote_driver_close_blocks {src : Bytes} {al : BP → Bool} (ps : PS src al) (fr : Frames al) {k ls p : Nat}
@@ -310,10 +314,10 @@ theorem quote_driver_close_blocks {src : Bytes} {al : BP → Bool} (ps : PS src 
     related states: `quote_driver_open_blocks`.) -/
 theorem nonblank_line_opens_block {src : Bytes} {al : BP → Bool} (ps : PS src al) (fr : Frames al) (ot : OT src) (ns : NS src)
     (tr : TrigOK src al) (bA bB : Bool) (hb : FL src → bB = bA) (q : Nat) {k ls p : Nat} {sA sB : St}
-    (h : DRL src al k ls p sA sB)
+    (h : DRL src al k ls p sA sB) (hq : q < sA.nodes.length) (hbq : al .setext = false → (bB = bA ∨ q = 0))
     (ho : sA.pc.opened = []) (hnb : isBlank ((viewA src ls p).getD []) = false) (a : OpenResult) (sA' : St)
     (hA : openBlocks q bA sA = .ok (a, sA')) : a = .newBlocksOpened := by
-  obtain ⟨_, _, _, _, _, hh⟩ := openBlocks_sim ps fr ot ns tr bA bB hb q h a sA' hA
+  obtain ⟨_, _, _, _, _, hh⟩ := openBlocks_sim ps fr ot ns tr bA bB hb q h hq hbq a sA' hA
   exact hh ho hnb
 
 /-- **Whole runs.** For every source without tab and CR that ends with a line feed and has no byte that can start a
@@ -326,7 +330,7 @@ theorem quote_prefix_run {src : Bytes} (hc : C08Class src) :
     ∃ sA sB, GM.Blocks.run src = .ok sA ∧ GM.Blocks.run (quotePrefix src) = .ok sB ∧
       StoreRel src sA.nodes sB.nodes ∧ UStore sA.nodes := by
   obtain ⟨sA, hA⟩ := GM.Props.Blocks.no_panic src
-  obtain ⟨sB, hB, hn, hu, hk⟩ := run_sim hc.wide.wider hA
+  obtain ⟨sB, hB, hn, hu, hk, _⟩ := run_sim hc.wide.wider hA
   exact ⟨sA, sB, hA, hB, hn, ustore_of_L hu (hk rfl)⟩
 
 /-- **`QuotePrefixSimulation` for the class — UNCONDITIONAL** (`GM.Props.Blocks.QuotePrefixSimulation`, the tree-level
@@ -403,6 +407,48 @@ theorem quote_prefix_run_lists {src : Bytes} (hc : C08ClassF src) :
   obtain ⟨sB, hB, hn, hu, _⟩ := run_sim_lists hc hA
   exact ⟨sA, sB, hA, hB, hn, wellShapedL_of hu (segsNE_of_rel hA hn), flagsEq_of_rel hc.noblank hn⟩
 
+/-- **Documents WITH LISTS AND BLANK LINES** (`C08ClassG`: no tab, no CR, not empty, last byte not a space, and no
+    position starts a setext heading underline — `NoBar`: no rest of a line consists of `=` only or of `-` only, up to
+    trailing spaces): `QuotePrefixSimulation D`, unconditionally. Loose and tight lists, paragraphs / headings / fences
+    / lists after blank lines, nested containers. Here the `HasBlankPreviousLines` flags of the two runs DIFFER: on a
+    child of the Document opened after a blank line the original run sets `true`, the prefixed run `false`
+    (parser.go:1099: its Blockquote's statistics entry for the previous line is not blank), and so on the chain of first
+    children opened in the same `openBlocks` call. Nobody reads those flags; the simulation carries the store relation
+    `FE` — equal flags on every child BUT THE FIRST of every node BUT THE DOCUMENT — which is what `listParser.Close`
+    (`flagsOK_of_fe`) and the dump (`quoteSimPair_eqF`) read. It is kept across every `Open` / `Continue` / `Close` as
+    a UNIT (`S2.withFE`, `fe_step`) from unary facts of both runs (flags of existing nodes unchanged, new nodes
+    unflagged: `BPn`; a child that is not the first afterwards was not the first before or is new: `CHn`, with
+    `replaceChild` treated as a unit), across the driver's `SetBlankPreviousLines` (`fe_setFlag`: the node an `Open`
+    returns is nobody's child until it is appended, `Unref`, from "all ids in range", `RStore`) and `AppendChild`
+    (`fe_append`: equal flags — every call below an opened container, by the statistics relation `CURG`, now for
+    sources with blank lines too: `lstG_reset` —, or the parent is the Document, or the parent has no child yet: the
+    container the same call has just opened, `QE`). The setext heading parser — whose `Close` copies the paragraph's
+    flag to the heading while the heading stands behind it — is tried and declines (`NoBar`, `setextOpen_declines`). -/
+theorem quote_prefix_simulation_lists_blank {src : Bytes} (hc : C08ClassG src) :
+    GM.Props.Blocks.QuotePrefixSimulation src := by
+  obtain ⟨sA, hA⟩ := GM.Props.Blocks.no_panic src
+  exact quoteSim_of_classG hc hA
+
+/-- the same with the provisos spelled out, the empty document included -/
+theorem quote_prefix_simulation_lists_blank_all (src : Bytes) (htf : ∀ c ∈ src, c ≠ 9) (hcr : ∀ c ∈ src, c ≠ 13)
+    (hnb : NoBar src) (hl : ∀ c, src.getLast? = some c → c ≠ 32) : GM.Props.Blocks.QuotePrefixSimulation src := by
+  by_cases he : src = []
+  · subst he
+    intro e g h
+    have : quoteSimPair [] = none := rfl
+    rw [this] at h
+    cases h
+  · exact quote_prefix_simulation_lists_blank ⟨htf, hcr, he, hl, hnb⟩
+
+/-- whole runs with lists and blank lines: both block phases end normally, the stores are related, the flags agree
+    wherever the block phase reads them (`FE`), the original store is well shaped -/
+theorem quote_prefix_run_lists_blank {src : Bytes} (hc : C08ClassG src) :
+    ∃ sA sB, GM.Blocks.run src = .ok sA ∧ GM.Blocks.run (quotePrefix src) = .ok sB ∧
+      StoreRel src sA.nodes sB.nodes ∧ WellShapedL sA ∧ FE sA.nodes sB.nodes := by
+  obtain ⟨sA, hA⟩ := GM.Props.Blocks.no_panic src
+  obtain ⟨sB, hB, hn, hu, _, hfe⟩ := run_sim_listsG hc hA
+  exact ⟨sA, sB, hA, hB, hn, wellShapedL_of hu (segsNE_of_rel hA hn), hfe rfl⟩
+
 /-- **The blank-line flags in whole runs** (the first of the three pieces, as a statement about ANY covered parser
     set): for a source without a blank line, related final stores have equal `HasBlankPreviousLines` flags on every
     node but the Document. -/
@@ -420,13 +466,26 @@ theorem quote_prefix_simulation_nolist (src : Bytes) (htf : ∀ c ∈ src, c ≠
     cases h
   · exact quote_prefix_simulation_noitems ⟨htf, hcr, he, hl, hno⟩
 
+/-- **What is proved of `QuotePrefixSimulationAll`, in one statement**: every tab- and CR-free source that does not end
+    with a space and lacks AT LEAST ONE of: a position that starts a list item (`NoItem`), a blank line (`FL`), a
+    position that starts a setext heading underline (`NoBar`). The gap: sources with all three (there
+    `setextHeadingParser.Close` copies a `HasBlankPreviousLines` flag that may differ between the runs), and a last line
+    without line feed that ends with a space. -/
+theorem quote_prefix_simulation_union (src : Bytes) (htf : ∀ c ∈ src, c ≠ 9) (hcr : ∀ c ∈ src, c ≠ 13)
+    (hl : ∀ c, src.getLast? = some c → c ≠ 32) (h : NoItem src ∨ FL src ∨ NoBar src) :
+    GM.Props.Blocks.QuotePrefixSimulation src := by
+  rcases h with h | h | h
+  · exact quote_prefix_simulation_nolist src htf hcr h hl
+  · exact quote_prefix_simulation_lists_all src htf hcr h hl
+  · exact quote_prefix_simulation_lists_blank_all src htf hcr h hl
+
 /-- whole runs for the wider class: both block phases end normally, the stores are related, the original store is
     well shaped -/
 theorem quote_prefix_run_nofinalnl {src : Bytes} (hc : C08ClassW src) :
     ∃ sA sB, GM.Blocks.run src = .ok sA ∧ GM.Blocks.run (quotePrefix src) = .ok sB ∧
       StoreRel src sA.nodes sB.nodes ∧ WellShaped sA := by
   obtain ⟨sA, hA⟩ := GM.Props.Blocks.no_panic src
-  obtain ⟨sB, hB, hn, hu, hk⟩ := run_sim hc.wider hA
+  obtain ⟨sB, hB, hn, hu, hk, _⟩ := run_sim hc.wider hA
   exact ⟨sA, sB, hA, hB, hn, wellShaped_of (ustore_of_L hu (hk rfl)) (segsNE_of_rel hA hn)⟩
 
 /-- the name of the earlier versions (`partial` now only refers to the class of sources) -/
@@ -439,7 +498,7 @@ theorem quote_prefix_simulation_partial {src : Bytes} (hc : C08Class src) : GM.P
     "all lines read"; it is kept as a regression oracle of the model.) -/
 theorem original_run_well_shaped {src : Bytes} (hc : C08Class src) {sA : St} (hA : GM.Blocks.run src = .ok sA) :
     WellShaped sA := by
-  obtain ⟨sB, _, hn, hu, hk⟩ := run_sim hc.wide.wider hA
+  obtain ⟨sB, _, hn, hu, hk, _⟩ := run_sim hc.wide.wider hA
   exact wellShaped_of (ustore_of_L hu (hk rfl)) (segsNE_of_rel hA hn)
 
 /-- the same, from the executable test `GM.Blocks.quoteHypB` (GM/Spec/QuoteHyp.lean: the class and the facts about
@@ -516,6 +575,14 @@ example : GM.Blocks.quoteSim (strBytes "- a\n  b\n- c\n  1. d\n  2. e\n> * q\n> 
   decide +kernel
 example : C08ClassF (strBytes "a - b\n") ∧ C08ClassF (strBytes "---\n") ∧ C08ClassF (strBytes "1. a\n   - b") := by decide +kernel
 example : ¬ C08ClassF (strBytes "- a\n\n- b\n") := by decide +kernel
+-- lists AND blank lines: a paragraph, a loose list with a nested ordered list, a quote with a list, a thematic break
+example : C08ClassG (strBytes "a\n\n- b\n\n  c\n- d\n  1. e\n\n  2. f\n\n> * q\n>\n> * r\n\n***\n# h\n\ng") := by decide +kernel
+example : GM.Props.Blocks.QuotePrefixSimulation
+    (strBytes "a\n\n- b\n\n  c\n- d\n  1. e\n\n  2. f\n\n> * q\n>\n> * r\n\n***\n# h\n\ng") :=
+  quote_prefix_simulation_lists_blank (by decide +kernel)
+example : GM.Blocks.quoteSim (strBytes "a\n\n- b\n\n  c\n- d\n  1. e\n\n  2. f\n\n> * q\n>\n> * r\n\n***\n# h\n\ng") = "ok" := by
+  decide +kernel
+example : ¬ C08ClassG (strBytes "a\n===\n") ∧ ¬ C08ClassG (strBytes "---\n") := by decide +kernel
 
 end blocks
 
